@@ -183,19 +183,30 @@ def dirName (p : Str) : Str :=
 def resolvedTarget (loc target : Str) : Str :=
   if target.head? = some '/' then target else normpath (loc ++ ('/' :: '.' :: '.' :: '/' :: target))
 
+/-- the prefix `child_nodes` tests locations against: `normpath(start).rstrip("/") + "/"` -/
+def cnPrefix (start : Str) : Str := ((normpath start).reverse.dropWhile (· = '/')).reverse ++ ['/']
+
+/-- `loc` lies strictly below `start` (`x.location.startswith(cn_path)`) -/
+def isChild (start loc : Str) : Bool := (cnPrefix start).isPrefixOf loc
+
 /-- `set.child_nodes(start)`: members strictly below `start` -/
-def childNodes (d : List Obj) (start : Str) : List Obj :=
-  let cn := (normpath start).reverse.dropWhile (· = '/') |>.reverse |> (· ++ ['/'])
-  d.filter fun x => cn.isPrefixOf x.loc
+def childNodes (d : List Obj) (start : Str) : List Obj := d.filter fun x => isChild start x.loc
+
+/-- the location `change_offset_rewriter(old, new, …)` gives an entry recorded at `loc`:
+`normpath(pjoin(new, loc[len(normpath(old or "/").rstrip("/")):].lstrip("/")))` -/
+def moveLoc (old new loc : Str) : Str :=
+  let n := (((normpath (if old.isEmpty then ['/'] else old)).reverse.dropWhile (· = '/')).reverse).length
+  let rest := lstripSlash (loc.drop n)
+  let joined := if rest.head? = some '/' then rest
+    else if new.isEmpty ∨ new.getLast? = some '/' then new ++ rest else new ++ '/' :: rest
+  normpath joined
 
 /-- `affected.change_offset(old, new)` -/
 def changeOffset (affected : List Obj) (old new : Str) : List Obj :=
-  let n := ((old.reverse.dropWhile (· = '/')).reverse).length
-  setOf (affected.map fun x =>
-    let rest := lstripSlash (x.loc.drop n)
-    let joined := if rest.head? = some '/' then rest
-      else if new.isEmpty ∨ new.getLast? = some '/' then new ++ rest else new ++ '/' :: rest
-    withLoc x (normpath joined))
+  setOf (affected.map fun x => withLoc x (moveLoc old new x.loc))
+
+/-- where the entries below `x` go: `x.resolved_target` (only symlinks are ever asked) -/
+def symTarget (x : Obj) : Str := match x with | .sym l t _ => resolvedTarget l t | _ => x.loc
 
 /-- the `while True: for x in sorted(syms): … break` loop on the symlinks -/
 def symLoop : Nat → List Obj → Option (List Obj)
@@ -206,8 +217,7 @@ def symLoop : Nat → List Obj → Option (List Obj)
     | none => some syms
     | some x =>
       let affected := childNodes syms x.loc
-      let tgt := match x with | .sym l t _ => resolvedTarget l t | _ => x.loc
-      symLoop fuel (setUpdate (setRemove syms affected) (changeOffset affected x.loc tgt))
+      symLoop fuel (setUpdate (setRemove syms affected) (changeOffset affected x.loc (symTarget x)))
 
 /-- the `for x in syms` loop relocating everything below a symlinked directory -/
 def relocate : List Obj → List Obj → List Obj → List Obj × List Obj
@@ -215,9 +225,7 @@ def relocate : List Obj → List Obj → List Obj → List Obj × List Obj
   | x :: xs, t, adds =>
     let affected := childNodes t x.loc
     if affected.isEmpty then relocate xs t adds
-    else
-      let tgt := match x with | .sym l t' _ => resolvedTarget l t' | _ => x.loc
-      relocate xs (setRemove t affected) (adds ++ changeOffset affected x.loc tgt)
+    else relocate xs (setRemove t affected) (adds ++ changeOffset affected x.loc (symTarget x))
 
 /-- the bounded repetition of the relocation pass (`for _ in range(len(syms) + 1)`): stop when a pass moves nothing -/
 def relocatePasses : Nat → List Obj → List Obj → List Obj
@@ -226,7 +234,12 @@ def relocatePasses : Nat → List Obj → List Obj → List Obj
     let (t', adds) := relocate syms t []
     if adds.isEmpty then t' else relocatePasses n syms (setUpdate t' adds)
 
-/-- `add_missing_directories`: the locations of the directories to create (mode 0775, root, mtime now) -/
+/-- the directory `add_missing_directories` creates at `p` (mode 0775, root; the mtime is the current time: empty token) -/
+def newDir (p : Str) : Obj := .dir p ⟨509, 0, 0, []⟩
+
+/-- `add_missing_directories`: the locations of the directories to create.  The code climbs from every missing
+parent towards the root; the model adds one level of missing parents per round until none is missing (same set);
+`fuel` = number of rounds allowed -/
 def missingDirs : Nat → List Obj → List Str
   | 0, _ => []
   | fuel + 1, t =>
@@ -234,7 +247,11 @@ def missingDirs : Nat → List Obj → List Str
     let missing := (t.map fun x => dirName x.loc).filter fun p => !have_ p && p != ['/'] && !p.isEmpty
     let missing := missing.eraseDups
     if missing.isEmpty then []
-    else missing ++ missingDirs fuel (t ++ missing.map fun p => Obj.dir p ⟨509, 0, 0, []⟩)
+    else missing ++ missingDirs fuel (t ++ missing.map newDir)
+
+/-- length of the longest location: every round of `missingDirs` shortens the paths it looks at, so this many
+rounds (+1) reach the root from everywhere -/
+def maxLocLen (t : List Obj) : Nat := t.foldr (fun o m => max o.loc.length m) 0
 
 def srcOf : Obj → Nat | .file f => f.src | _ => 0
 
@@ -254,7 +271,7 @@ def convertArchive (raw : List Obj) : Option (List Obj) :=
     let t := setUpdate (setRemove t rawSyms) syms
     let symsRev := (C28.sortBy Obj.loc syms).reverse
     let t := relocatePasses (symsRev.length + 1) symsRev t
-    let t := setUpdate t ((missingDirs (t.length * 64 + 64) t).eraseDups.map fun p => Obj.dir p ⟨509, 0, 0, []⟩)
+    let t := setUpdate t ((missingDirs (maxLocLen t + 1) t).eraseDups.map newDir)
     let dirs := C28.sortBy Obj.loc (t.filter Obj.isDir)
     let others := C28.sortBy Obj.loc (t.filter fun o => !o.isDir && !o.isReg)
     -- regular files keep the archive order of their data sources (`files_ordering[x.data]`)
